@@ -599,8 +599,13 @@ impl NISPSignaturePoK {
             return false;
         }
 
-        let mut t_Cx = Integer::from(1);
         let N = &signer_pk.N;
+        // the commitments are canonical residues modulo N (C + N, C - N would be a second encoding of the same proof)
+        if [&self.Cx, &self.Cv, &self.Cw, &self.Ce].iter().any(|c| c.value < 0 || c.value >= *N) {
+            return false;
+        }
+
+        let mut t_Cx = Integer::from(1);
         let mut idx: usize = 0;
         let mut idx_revealed_msgs: usize = 0;
 
